@@ -42,7 +42,7 @@ type ClientReg struct {
 	ATType      string // opaque | jwt
 	Skew        time.Duration
 	IDTLifetime time.Duration
-	Assertion   bool // IDTokenUserinfoClaimsAssertion
+	Assertion   bool                        // IDTokenUserinfoClaimsAssertion
 	Keys        map[string]*jose.JSONWebKey // public keys by kid (private_key_jwt / jwt-bearer)
 	ExtraScopes []string
 }
@@ -225,12 +225,12 @@ type refreshReq struct {
 	cur []string
 }
 
-func (r *refreshReq) GetAMR() []string        { return r.AMR }
-func (r *refreshReq) GetAudience() []string   { return r.Audience }
-func (r *refreshReq) GetAuthTime() time.Time  { return r.AuthTime }
-func (r *refreshReq) GetClientID() string     { return r.Client }
-func (r *refreshReq) GetScopes() []string     { return r.cur }
-func (r *refreshReq) GetSubject() string      { return r.Subject }
+func (r *refreshReq) GetAMR() []string            { return r.AMR }
+func (r *refreshReq) GetAudience() []string       { return r.Audience }
+func (r *refreshReq) GetAuthTime() time.Time      { return r.AuthTime }
+func (r *refreshReq) GetClientID() string         { return r.Client }
+func (r *refreshReq) GetScopes() []string         { return r.cur }
+func (r *refreshReq) GetSubject() string          { return r.Subject }
 func (r *refreshReq) SetCurrentScopes(s []string) { r.cur = s }
 
 type Device struct {
@@ -340,8 +340,10 @@ type Store struct {
 	FailKind   string // "error" | "deadline"
 	calls      int
 
-	ATLifetime time.Duration // lifetime of access tokens handed to the framework
-	BornExpired bool         // new access tokens get an expiry in the past (JWT born expired)
+	ATLifetime  time.Duration // lifetime of access tokens handed to the framework
+	BornExpired bool          // new access tokens get an expiry in the past (JWT born expired)
+
+	ShareDeviceState bool // GetDeviceAuthorizatonState returns the stored object, not a copy (C20)
 
 	PromptNoneLoginRequired bool
 	Health_                 error
@@ -1019,6 +1021,10 @@ func (d Dev) GetDeviceAuthorizatonState(ctx context.Context, clientID, deviceCod
 		dv.Slow = false
 		return nil, context.DeadlineExceeded
 	}
+	if s.ShareDeviceState {
+		// a storage that keeps its states in memory and hands out the object itself (as example/server/storage does)
+		return dv.State, nil
+	}
 	// hand out a copy: the store owns its state
 	cp := *dv.State
 	cp.Audience = slices.Clone(dv.State.Audience)
@@ -1059,13 +1065,39 @@ func (s *Store) Unlock() { s.mu.Unlock() }
 type sBase = *Store
 
 type (
-	StoreCC      struct{ sBase; CC }
-	StoreTE      struct{ sBase; TE }
-	StoreDev     struct{ sBase; Dev }
-	StoreCCTE    struct{ sBase; CC; TE }
-	StoreCCDev   struct{ sBase; CC; Dev }
-	StoreTEDev   struct{ sBase; TE; Dev }
-	StoreCCTEDev struct{ sBase; CC; TE; Dev }
+	StoreCC struct {
+		sBase
+		CC
+	}
+	StoreTE struct {
+		sBase
+		TE
+	}
+	StoreDev struct {
+		sBase
+		Dev
+	}
+	StoreCCTE struct {
+		sBase
+		CC
+		TE
+	}
+	StoreCCDev struct {
+		sBase
+		CC
+		Dev
+	}
+	StoreTEDev struct {
+		sBase
+		TE
+		Dev
+	}
+	StoreCCTEDev struct {
+		sBase
+		CC
+		TE
+		Dev
+	}
 )
 
 // WithCaps returns s wrapped so that exactly the requested optional storage interfaces are implemented.
